@@ -14,4 +14,9 @@
 #define RB_MRU
 #include "recency_base.h"
 static inline bool mru_wf(const mru_cache *c) { return mru_wf_base(c); }
+/* the whole view of key g is the same in two states (C18 relational harnesses) */
+static inline bool mru_view_eq(const mru_cache *a, const mru_cache *b, uint64_t g)
+{
+    return mru_has(a, g) == mru_has(b, g) && (!mru_has(a, g) || mru_val(a, g) == mru_val(b, g)) && mru_ord(a, g) == mru_ord(b, g);
+}
 #endif
